@@ -109,7 +109,12 @@ def _costs(config):
     if not _os.path.exists(p): return {}
     return _json.load(open(p)).get(config, {})
 
-def klex_select(kinds, defs, quick_cost=40, quick_per_def=5, thorough_cost=300, config='default', names=None):
+def _cover_map(config):
+    p = _os.path.join(_ROOT, 'kani', 'lex', 'costs.json')
+    if not _os.path.exists(p): return {}
+    return _json.load(open(p)).get('covers:' + config, {})
+
+def klex_select(kinds, defs, quick_cost=40, quick_per_def=5, thorough_cost=300, config='default', names=None, covers=()):
     """-> callable(tier, crate_dir) -> harness names.  Only harnesses with a measured cost are eligible: a harness whose
     cost on the unchanged tree is unknown or above the tier's budget is never scheduled (it could only time out)."""
     def sel(tier, crate_dir):
@@ -133,6 +138,12 @@ def klex_select(kinds, defs, quick_cost=40, quick_per_def=5, thorough_cost=300, 
                     if len(picked) >= quick_per_def: break
                     if c <= quick_cost and h not in picked: picked.append(h)
                 out += picked[:max(quick_per_def, len(kinds))]
+        # vacuity: for every required cover label schedule the cheapest harness known to satisfy it
+        cm = _cover_map(config)
+        for label in covers:
+            if any(label in cm.get(h, []) for h in out): continue
+            cand = sorted((costs[h], h) for h, m in idx.items() if m['d'] in defs and m['kind'] in kinds and costs.get(h) is not None and label in cm.get(h, []))
+            if cand: out.append(cand[0][1])
         return out
     return sel
 
@@ -149,7 +160,7 @@ def klex_suite(label, kinds, defs, covers=(), configs=((),), configs_quick=None,
     for tier_cfgs, only in ((configs, None),):
         for f in tier_cfgs:
             suites.append(dict(crate='lex', label='%s [%s]' % (label, cfgname(f)), configs=[f],
-                               harnesses=klex_select(kinds, defs, config=cfgname(f), **kw), timeout=klex_timeout(cfgname(f)),
+                               harnesses=klex_select(kinds, defs, config=cfgname(f), covers=(list(covers) if f == () or f == ('verif_hooks',) else ()), **kw), timeout=klex_timeout(cfgname(f)),
                                covers=list(covers) if f == () or f == ('verif_hooks',) else [], bounded=bounded,
                                quick=(configs_quick is None or f in configs_quick)))
     return suites
